@@ -11,6 +11,7 @@ import (
 	"sync/atomic"
 
 	"github.com/hashicorp/raft-wal/types"
+	"github.com/hashicorp/raft-wal/verifhook"
 )
 
 // Writer allows appending logs to a segment file as well as reading them back.
@@ -284,6 +285,7 @@ func (w *Writer) Append(entries []types.LogEntry) error {
 		}
 	}
 
+	verifhook.At("append.published", "")
 	ofs := w.getOffsets()
 	// Work out if we need to seal before we commit and sync.
 	if (w.writer.writeOffset + uint32(len(w.writer.commitBuf)+indexFrameSize(len(ofs)))) > w.info.SizeLimit {
